@@ -1,1 +1,78 @@
-// contract harnesses for trust-runtime/src/bytecode_reader (included by the verification hook)
+// Contract harnesses for crates/trust-runtime/src/bytecode/reader.rs  (C11)
+//
+// BytecodeReader:  inv   cursor <= data.len()
+//                  pre   len <= u32::MAX  (every caller passes a widened u32 or a small constant, so
+//                        `cursor + len` cannot overflow usize on a 64-bit target)
+//                  post  Ok(s) => s == data[cur .. cur+len], cursor' == cur + len
+//                        Err(UnexpectedEof) => cursor' == cur; never an out-of-bounds index
+
+use super::*;
+
+const DN: usize = 12;
+
+// @unit id=bc.reader.read_bytes props=C11 tier=quick kind=bounded bound="data<=12 bytes; cursor full, requested length full u32" fn=BytecodeReader::read_bytes,BytecodeReader::remaining,BytecodeReader::pos
+#[kani::proof]
+fn bc_reader_read_bytes() {
+    let data: [u8; DN] = kani::any();
+    let dlen: usize = kani::any();
+    kani::assume(dlen <= DN);
+    let cur: usize = kani::any();
+    kani::assume(cur <= dlen);
+    let n32: u32 = kani::any();
+    let n = n32 as usize;
+    let mut r = BytecodeReader { data: &data[..dlen], cursor: cur };
+    assert!(r.remaining() == dlen - cur && r.pos() == cur);
+    let res = r.read_bytes(n);
+    let fits = n <= dlen - cur;
+    let ok = match &res {
+        Ok(s) => fits && s.len() == n && r.cursor == cur + n && (n == 0 || (s[0] == data[cur] && s[n - 1] == data[cur + n - 1])),
+        Err(BytecodeError::UnexpectedEof) => !fits && r.cursor == cur,
+        Err(_) => false,
+    };
+    kani::cover!(fits && n > 1);
+    kani::cover!(!fits && n32 == u32::MAX);
+    std::mem::forget(res);
+    assert!(ok, "read_bytes returns exactly data[cur..cur+n] and advances, or UnexpectedEof without consuming");
+}
+
+// @unit id=bc.reader.ints props=C11 tier=quick kind=bounded bound="data<=12 bytes; cursor full" fn=BytecodeReader::read_u8,BytecodeReader::read_u16,BytecodeReader::read_u32,BytecodeReader::read_i32,BytecodeReader::read_u64,BytecodeReader::read_i64
+#[kani::proof]
+fn bc_reader_ints() {
+    let data: [u8; DN] = kani::any();
+    let dlen: usize = kani::any();
+    kani::assume(dlen <= DN);
+    let cur: usize = kani::any();
+    kani::assume(cur <= dlen);
+    let rem = dlen - cur;
+    let mut r = BytecodeReader { data: &data[..dlen], cursor: cur };
+    let a = r.read_u16();
+    let ok_a = match &a {
+        Ok(v) => rem >= 2 && *v == (data[cur] as u16 | (data[cur + 1] as u16) << 8) && r.cursor == cur + 2,
+        Err(_) => rem < 2 && r.cursor == cur,
+    };
+    std::mem::forget(a);
+    let mut r = BytecodeReader { data: &data[..dlen], cursor: cur };
+    let b = r.read_i32();
+    let ok_b = match &b {
+        Ok(v) => rem >= 4 && *v == i32::from_le_bytes([data[cur], data[cur + 1], data[cur + 2], data[cur + 3]]) && r.cursor == cur + 4,
+        Err(_) => rem < 4 && r.cursor == cur,
+    };
+    std::mem::forget(b);
+    let mut r = BytecodeReader { data: &data[..dlen], cursor: cur };
+    let c = r.read_u64();
+    let ok_c = match &c {
+        Ok(v) => rem >= 8 && r.cursor == cur + 8 && (*v & 0xff) as u8 == data[cur] && (*v >> 56) as u8 == data[cur + 7],
+        Err(_) => rem < 8 && r.cursor == cur,
+    };
+    std::mem::forget(c);
+    let mut r = BytecodeReader { data: &data[..dlen], cursor: cur };
+    let d = r.read_u8();
+    let ok_d = match &d {
+        Ok(v) => rem >= 1 && *v == data[cur] && r.cursor == cur + 1,
+        Err(_) => rem < 1 && r.cursor == cur,
+    };
+    std::mem::forget(d);
+    kani::cover!(rem >= 8);
+    kani::cover!(rem == 3);
+    assert!(ok_a && ok_b && ok_c && ok_d, "integers are little-endian, reads are bounds-checked and consume exactly their width");
+}
